@@ -25,7 +25,8 @@ impl ToleranceMap for ConstantTolMap {
 
 /// A tolerance zone map that returns a tolerance zone based on a 1D discrete domain. Each tolerance
 /// zone is associated with a value in the domain and extends to the next value in the domain, with
-/// the last value in the domain extending to infinity.
+/// the last value in the domain extending to infinity. There is no tolerance zone below the first
+/// value of the domain.
 pub struct DiscreteDomainTolMap {
     pub domain: DiscreteDomain,
     pub tol_zones: Vec<Tolerance>,
@@ -77,8 +78,12 @@ impl ToleranceMap for DiscreteDomainTolMap {
             None
         } else if let Some(i) = self.domain.index_of(x) {
             Some(self.tol_zones[i])
-        } else {
+        } else if x > self.domain[self.domain.len() - 1] {
+            // Only the last zone extends beyond the end of the domain
             Some(self.tol_zones[self.tol_zones.len() - 1])
+        } else {
+            // There is no zone below the first value of the domain
+            None
         }
     }
 }
